@@ -1,17 +1,17 @@
-(* C05 oracle and non-triviality on wiring cases. Correspondence: Corr/Wiring.v [wcheck];
+(* C05 oracle and non-triviality on wiring cases. Correspondence: Corr/Wiring.v [wcheck_obs];
    oracles: Corr/WiringOracles.v (static scenario data + the implementation's observation only). *)
 From Coq Require Import List Arith Bool.
 From IocVerif Require Import Model.App Corr.Wiring Corr.WiringOracles.
 Import ListNotations.
 
-Definition check_case : wcase -> bool := wcheck.
+Definition check_case : wcase -> bool := wcheck_obs.
 
 (* populate, then before / AfterPropertiesSet / Init / after exactly once; dependencies first; lazy only if needed *)
 Definition oracle_case (c : wcase) : bool := oracle_lifecycle c.
 
 Definition nontrivial (c : wcase) : bool := ok_start c && (1 <=? count_points c (fun h kp => negb (Nat.eqb (length (obs_field (w_obs c) h (fst kp))) 0))) && existsb (fun e => match e with EvInit _ => true | _ => false end) (ob_log (w_obs c)).
 
-Definition mismatches (cs : list wcase) : list nat := wmismatches cs.
+Definition mismatches (cs : list wcase) : list nat := wmismatches_obs cs.
 Definition violations (cs : list wcase) : list nat :=
   map w_id (filter (fun c => negb (oracle_case c)) cs).
 Definition count_nontrivial (cs : list wcase) : list nat := [length (filter nontrivial cs)].
